@@ -328,7 +328,18 @@ func c10Run(c c10Case, res *WRes) {
 		}
 	}
 	logStart := len(w.Store.Log)
-	before := w.StateKey()
+	// grant state: codes, tokens, device and pushed requests. The jti bookkeeping of assertions is not part of it: a
+	// correctly signed assertion that is refused for another reason (audience) may have its jti recorded on the way
+	grantState := func() string {
+		var keep []string
+		for _, l := range strings.Split(w.StateKey(), "\n") {
+			if l != "" && !strings.HasPrefix(l, "jti|") {
+				keep = append(keep, l)
+			}
+		}
+		return strings.Join(keep, "\n")
+	}
+	before := grantState()
 	var o *Obs
 	succeeded := false
 	switch {
@@ -397,7 +408,7 @@ func c10Run(c c10Case, res *WRes) {
 				viol("C10/rejected-request-touched-token-state/"+c.Endpoint+"/"+call.Name, fmt.Sprintf("a request rejected for failed client authentication (%s, %s/%s) still called %s", c.Reg, c.Transport, c.Secret, call.Name), "no write", call.Name)
 			}
 		}
-		if w.StateKey() != before {
+		if grantState() != before {
 			viol("C10/rejected-request-changed-state/"+c.Endpoint, "a request rejected for failed client authentication changed stored grant state", "unchanged store", nil)
 		}
 		if victim != "" {
